@@ -201,6 +201,13 @@ var families = map[string]familyFn{
 	"vm": func(g *gen.G, r *recorder, maxNodes, maxSteps int) {
 		d := g.Doc(maxNodes)
 		e := g.PredPath()
+		if g.R.Intn(10) == 0 {
+			// a numeric predicate that is no integer (the engine truncates it: the model does the same)
+			st := &e.Steps[len(e.Steps)-1]
+			if len(st.Preds) == 0 {
+				st.Preds = []*xast.Expr{{T: "num", V: &xast.Num{C: "fin", N: int64(1 + 2*g.R.Intn(3)), K: 1}}}
+			}
+		}
 		if g.R.Intn(6) == 0 {
 			e = &xast.Expr{T: "union", L: e, R: g.PredPath()}
 		}
